@@ -115,6 +115,12 @@ service Svc extends Base {
     D.append(doc("q_default_const_list", "const list<i32> CL = [1, 2]\nstruct Q { 1: list<i32> l = CL }\n", shape="default-references-container-const", quarantine="C14-default-container-const-panics"))
     D.append(doc("q_default_td_enum", "enum E { A = 1, B = 2 }\ntypedef E TE\nstruct Q { 1: TE e = E.B }\n", shape="default-enum-through-typedef"))
     D.append(doc("q_uuid_key", "struct Q { 1: set<uuid> s, 2: map<uuid, i32> m }\n", shape="uuid-as-set-element-or-key", quarantine="C14-uuid-key-by-reference"))
+    # constants of struct type: every member listed / some left out (filled from Default, so not a constant expression) x member
+    # kinds; in a list and as a map value.  Must compile without keep_unknown_fields (with it: the recorded finding below)
+    D.append(doc("const_struct_literals", 'struct In { 1: i32 a = 1 }\nstruct P { 1: required i32 x, 2: required string label, 3: optional list<i32> tags, 4: In inner, 5: optional double d }\n'
+                 'const P FULL = {"x": 1, "label": "o", "tags": [1, 2], "inner": {"a": 2}, "d": 1.5}\nconst P PARTIAL = {"label": "origin"}\nconst P PARTIAL2 = {"x": 5}\n'
+                 'const P PARTIAL3 = {"x": 5, "label": "l"}\nconst In CI = {}\nconst In CJ = {"a": 7}\nconst list<P> PS = [{"x": 1}, {"label": "b"}]\nconst map<string, P> PM = {"k": {"x": 2}}\n'
+                 'struct H { 1: P p = {"x": 3}, 2: In i = {"a": 4} }\n', shape="struct-literal"))
     D.append(doc("q_keep_struct_literal", "struct In { 1: i32 a = 1 }\nconst In CI = {\"a\": 2}\nstruct Q { 1: In i = {\"a\": 3} }\n", shape="struct-literal", quarantine="C14-struct-literal-misses-unknown-fields"))
     # names the emitted code itself uses
     D.append(doc("shadow_std_types", "struct Result { 1: i32 a }\nstruct Option { 1: i32 a }\nstruct String { 1: i32 a }\nstruct Vec { 1: i32 a }\nstruct Box { 1: i32 a }\n"
